@@ -315,7 +315,7 @@ def gen_defs(repo, res):
         ("jacobian component, cell", "cell", "cell", fja, T("FE4", (1, 1, 1, 3), offset=1, ttype="piecewise"), None, None, (3, 3)),
         ("jacobian component, interior facet '-'", "facet", "interior_facet", fja, T("FE5", (1, 3, NQ, 3), offset=0), "-", None, (3, 3)),
         ("jacobian component, interior facet '+'", "facet", "interior_facet", fja, T("FE5", (1, 3, NQ, 3), offset=2), "+", None, (3, 3)),
-        ("jacobian component, interior facet '-', permuted table (non-affine geometry)", "facet", "interior_facet", fja, T("FE7", (2, 3, NQ, 3), offset=1, permuted=True), "-", None, (3, 3)),
+        ("jacobian component, interior facet '+', permuted table (non-affine geometry)", "facet", "interior_facet", fja, T("FE7", (2, 3, NQ, 3), offset=1, permuted=True), "+", None, (3, 3)),
         ("spatial coordinate, interior facet '+', permuted table", "facet", "interior_facet", fsx, T("FE7", (2, 3, NQ, 3), offset=0, permuted=True), "+", None, (3, 3)),
         ("spatial coordinate, exterior facet", "facet", "exterior_facet", fsx, T("FE6", (1, 3, NQ, 3), offset=1), None, None, (3, 3)),
     ]
